@@ -264,4 +264,17 @@ theorem maxTie_refutes :
       ((y.toHsla CQuirks.spec).toRgba).r = 255 ∧ ((y.toHsla CQuirks.spec).toRgba).g = 255 ∧
       ((y.toHsla CQuirks.spec).toRgba).b = 0) := by decide +kernel
 
+/-- PARTIAL (`maxTieRedGreen`, general form): for EVERY rgba value except those with
+red = green > blue (the decidable hypothesis that excludes the deviation), `Rgba.toHsla` with the
+old `max_min_largest` (`Color.qTie` = specified model + `maxTieRedGreen`) is the specified
+`Rgba.toHsla` — the other ties (red = blue > green, green = blue > red, all equal) pick another
+channel index but give the same maximum and the same hue. -/
+theorem maxTie_partial (c : Rgba Rat)
+    (hx : ¬ (c.r / 255 = c.g / 255 ∧ c.b / 255 < c.r / 255)) :
+    c.toHsla qTie = c.toHsla CQuirks.spec :=
+  Rgba.toHsla_qTie c hx
+
+/-- the hypothesis is satisfiable by a colour with a tie for the maximum: `#ff00ff` -/
+example : ¬ ((255 : Rat) / 255 = (0 : Rat) / 255 ∧ (255 : Rat) / 255 < (255 : Rat) / 255) := by norm_num
+
 end C31
